@@ -19,6 +19,7 @@ import json
 import math
 import os
 import time
+import zlib
 import traceback
 
 import numpy as np
@@ -191,6 +192,16 @@ class Ctx(object):
     # ---- driving the real code ---------------------------------------------------
     def make(self, cls, *args, **kw):
         """Construct a solver of the real code; exceptions become SolverRaised."""
+        # sequence-valued parameters (detonator positions, detonation times ...) are handed over as float64 arrays in half of
+        # the constructions (chosen from the values, so that a replay makes the same choice): an array, unlike a list or a
+        # tuple, is not copied by numpy.asarray - a solver that works on it in place changes its own parameter
+        seq = [k for k, v in kw.items() if isinstance(v, (list, tuple)) and len(v) > 0
+               and all(isinstance(x, (int, float)) and not isinstance(x, bool) for x in v)]
+        if seq and zlib.crc32(repr(sorted((k, repr(v)) for k, v in kw.items())).encode()) & 1:
+            kw = dict(kw)
+            for k in seq:
+                kw[k] = np.array(kw[k], dtype=float)
+            self.count("ctor_sequence_parameters_as_ndarray")
         try:
             with contextlib.redirect_stdout(io.StringIO()):
                 return cls(*args, **kw)
